@@ -299,7 +299,8 @@ theorem C20_mul_eq_iff (x y : Opinion α n) :
     Cmp.opinionEq x y = true ↔
       (∀ i : Fin n, Scalar.eq x.b[i] y.b[i] = true) ∧ Scalar.eq x.u y.u = true ∧
       (∀ i : Fin n, Scalar.eq x.a[i] y.a[i] = true) := by
-  simp only [Cmp.opinionEq, Bool.and_eq_true, C20_simplex_eq_iff, Opinion.simplex, and_assoc]
+  simp only [Cmp.opinionEq, Bool.and_eq_true, C20_simplex_eq_iff, Cmp.tabEq_iff, Opinion.simplex,
+    and_assoc]
 
 theorem C20_simplex_single_cell (x y : Simplex α n)
     (h : (∃ i : Fin n, Scalar.eq x.b[i] y.b[i] = false) ∨ Scalar.eq x.u y.u = false) :
@@ -475,6 +476,5 @@ example : Cmp.opinionEq (liftO (f := .f64) ![1/2, 1/4] (1/4) ![1/2, 1/2])
   right; right
   refine ⟨1, ?_⟩
   simp
-  norm_num
 
 end SLV.Props.C20
